@@ -6,17 +6,18 @@ for d in ${@:-$(ls -d */ | tr -d /)}; do
   [ -f "$d/meta.json" ] || continue
   out=$(../tools/verify_seeded.py "$d" --check 2>&1)
   echo "$out" | python3 -c "
-import sys, json, re
+import sys, json
 txt = sys.stdin.read()
-i = txt.rfind('\n{\n')
+i = txt.find('{\n')
 try:
-    res = json.loads(txt[i+1:]) if i >= 0 else {'raw': txt[-2000:]}
+    res = json.loads(txt[i:]) if i >= 0 else {'raw': txt[-2000:]}
 except Exception:
     res = {'raw': txt[-2000:]}
 res['repo_head'] = '$(git -C /repo rev-parse --short HEAD)'
 res['verif_head'] = '$(git -C /verif rev-parse --short HEAD)'
 json.dump(res, open('$d/last_check.json', 'w'), indent=1)
-ok = all(v.startswith('exit 1') for k, v in res.items() if k.startswith('check_')) and any(k.startswith('check_') for k in res)
-print('$d', 'verified=%s' % (res.get('demo_with_change') == 'fail' and res.get('demo_without_change') == 'pass' and res.get('suite_with_change') == 'pass'), 'caught=%s' % ok)
+checks = {k: v for k, v in res.items() if k.startswith('check_')}
+print('$d', 'verified=%s' % (res.get('demo_with_change') == 'fail' and res.get('demo_without_change') == 'pass' and res.get('suite_with_change') == 'pass'),
+      'caught=%s' % (bool(checks) and all(v.startswith('exit 1') for v in checks.values())), {k: v[:6] for k, v in checks.items()})
 "
 done
